@@ -56,6 +56,8 @@ func ROpsFor(api string, n, readChunk int) []ROp {
 		return []ROp{{Op: "framewe"}}
 	case "frame":
 		return []ROp{{Op: "frame"}}
+	case "secret":
+		return []ROp{{Op: "secret"}}
 	}
 	ops := []ROp{{Op: "start"}}
 	if readChunk <= 0 {
